@@ -219,6 +219,7 @@ type Mq struct {
 	Mid        int    `json:"mid"`
 	Pl         string `json:"pl"`
 	Plen       int    `json:"plen"`
+	Tlen       int    `json:"tlen"` // length of the topic name in bytes
 	Rc         int    `json:"rc"`
 	Codes      []int  `json:"codes"`
 	Ntopics    int    `json:"ntopics"`
@@ -264,6 +265,7 @@ func MqFromPkt(p mqref.Pkt) Mq {
 	}
 	r.Pl = EncData(p.Payload)
 	r.Plen = len(p.Payload)
+	r.Tlen = len(topic)
 	r.Cid = EncName([]byte(p.ClientID))
 	r.WillTopic = EncName([]byte(p.WillTopic))
 	r.WillMsg = EncData(p.WillMsg)
